@@ -60,6 +60,11 @@ public:
 
     this->str = new uchar[maxlength + 1];
 
+    // A pattern longer than the longest string prefixes no string (the range
+    // is empty): there is nothing to copy, and it would not fit in str
+    if (prefixLen > maxlength)
+      this->strLen = prefixLen = 0;
+
     if (prefixLen > 0)
       strncpy((char *)this->str, (char *)prefix, this->strLen);
     else
